@@ -91,8 +91,14 @@ def program_strategy():
 
     @st.composite
     def prog(draw):
-        integers = lambda a, b: draw(st.integers(a, b))
-        pick = lambda seq: seq[draw(st.integers(0, len(seq) - 1))]
+        # one 64-bit draw seeds a PRNG: uniform choices (Hypothesis' own integer draws are biased
+        # towards small values, which starves some operand kinds); shrinking is done by
+        # reduce_program(), not by Hypothesis
+        import random
+        rnd = random.Random(draw(st.integers(0, 2 ** 64 - 1)))
+        integers = lambda a, b: rnd.randint(a, b)
+        pick = lambda seq: seq[rnd.randrange(len(seq))]
+        booleans = lambda: rnd.random() < 0.5
         family = pick(["tvector", "tvector", "tmatrix", "stensor", "tensor", "st2tost2"])
         if family == "tvector":
             shape = ["tvector", integers(1, 6)]
@@ -130,7 +136,7 @@ def program_strategy():
             if sh[0] == "tmatrix":
                 ks = ["submatrix_view", "submatrix_view"] + ks
             kind = pick(kinds or ks)
-            const = (not mutable) and draw(st.booleans())
+            const = (not mutable) and booleans()
             o = {"shape": sh, "kind": kind, "const": const}
             if kind == "owned":
                 o["space"] = new_space(sh)
@@ -151,7 +157,7 @@ def program_strategy():
                 off = region(span)
                 if off is None:
                     return make_operand(sh, mutable, ["owned"])
-                cells = draw(st.permutations(list(range(off, off + span))))[:n]
+                cells = rnd.sample(list(range(off, off + span)), n)
                 o.update(space=0, cells=list(cells))
             elif kind in ("views_array", "map_array"):
                 count = integers(1, 3)
@@ -160,8 +166,8 @@ def program_strategy():
                 if off is None:
                     return make_operand(sh, mutable, ["owned"])
                 j = integers(0, count - 1)
-                o.update(space=0, off=off, stride=stride, count=count, index=j, paren=draw(st.booleans()),
-                         fsarray=draw(st.booleans()),
+                o.update(space=0, off=off, stride=stride, count=count, index=j, paren=booleans(),
+                         fsarray=booleans(),
                          cells=[off + j * stride + i for i in range(n)])
             elif kind in ("row_view", "row_slice", "column_view", "column_slice"):
                 if kind == "row_view":
@@ -191,8 +197,10 @@ def program_strategy():
             elif kind == "slice":
                 # slice<I>() : the last n elements; slice<0,n>() : the first n (start 0: "size" and
                 # "end index" readings of the second parameter coincide)
-                tail = draw(st.booleans())
-                H = n + integers(0 if not tail else 1, 3)
+                tail = booleans()
+                # H > n: slice<0,J>() with J equal to the host size is an ambiguous call on the
+                # unchanged tree (slice<I,J,N,T> vs slice<I,N,T>), so it is not a spelling real code uses
+                H = n + integers(1, 3)
                 host = new_space(["tvector", H])
                 I = H - n if tail else 0
                 o.update(space=host, tail=tail, I=I, cells=list(range(I, I + n)))
@@ -211,7 +219,7 @@ def program_strategy():
                 # another view object on exactly the same cells as the destination
                 d = P["operands"][P["dest"]]
                 if d["space"] == 0:
-                    o = {"shape": sh, "kind": "coalesced", "const": draw(st.booleans()), "space": 0,
+                    o = {"shape": sh, "kind": "coalesced", "const": booleans(), "space": 0,
                          "cells": list(d["cells"]), "twin": True}
                     P["operands"].append(o)
                     return ["leaf", len(P["operands"]) - 1]
@@ -393,12 +401,13 @@ def decl_operand(P, k, out):
         out.append("auto %s = map<%s>(p%d);" % (name, CT, k))
     elif kind == "views_array":
         out.append("auto a%d = map<%du, %s, %du, %du>(%s);" % (k, o["count"], CT, o["off"], o["stride"], "cbk" if o["const"] else "bk"))
-        return ("a%d(%d)" if o["paren"] else "a%d[%d]") % (k, o["index"])
+        # the element view is bound to a name: some operations keep a reference to their operands
+        out.append("auto %s = %s;" % (name, ("a%d(%d)" if o["paren"] else "a%d[%d]") % (k, o["index"])))
     elif kind == "map_array":
         cont = "fsarray" if o["fsarray"] else "tvector"
         # map_array takes a pointer to mutable data
         out.append("auto a%d = map_array<%s<%du, %s>>(buf + %d);" % (k, cont, o["count"], T, o["off"]))
-        return ("a%d(%d)" if o["paren"] else "a%d[%d]") % (k, o["index"])
+        out.append("auto %s = %s;" % (name, ("a%d(%d)" if o["paren"] else "a%d[%d]") % (k, o["index"])))
     else:
         host = ("c" + sp) if o["const"] else sp
         if kind == "row_view":
